@@ -12,7 +12,7 @@ DISTINCT_RULE = (
     "re-execution for small configurations (every prefix is itself a history and is judged at quiescence) and sampled by seeded random walks beyond; distinct = distinct "
     "event sequences (interleavings) executed and judged"
 )
-RULES = ["converged-order", "exchange-bet", "restart-exposure", "unknown-strategy"]
+RULES = ["converged-order", "exchange-bet", "restart-exposure", "unknown-strategy", "subscription"]
 MINIMA = {"quick": {"rule_converged-order": 15000, "rule_exchange-bet": 15000, "rule_restart-exposure": 1500, "interleavings": 4000}, "thorough": {"interleavings": 150000}}
 ASSUMPTIONS = [
     "the double's bet table is the sequential model of the exchange (DESIGN.md Appendix B')",
@@ -38,6 +38,8 @@ def plan(tier, seed):
     nwalk = 8000 if tier == "quick" else 150000
     for i in range(nwalk):
         cases.append({"mode": "walk", "seed": seed, "idx": i, "cfg": {"n": 1 + i % 3, "async": i % 4 == 3, "foreign": i % 5 == 0, "hc": i % 3 == 1, "ext": i % 2 == 1, "sp": (i // 2) % 4 if i % 6 == 5 else 0, "veto": (seed * 100000 + i + 1) if i % 5 == 2 else 0, "restart2": i % 4 == 1, "orders_first": (i // 3) % 3}, "len": 10 + i % 5})
+    for i in range(3):
+        cases.append({"mode": "subscription", "idx": i})
     # directed case for the listed finding C11-restart-replaced-bet
     cases.insert(0, {"mode": "events", "cfg": {"n": 1, "async": False}, "events": [["place", 0], ["resp", 0], ["fill", 0, 0.4], ["snap"], ["replace", 0], ["resp", 0], ["snap"], ["restart"]]})
     return cases
@@ -145,6 +147,7 @@ class Run:
                 if self.cfg.get("ext"):
                     ev.append(("pcancel", i))
                     ev.append(("tctx", i))
+                    ev.append(("tresp", i))
                 ev.append(("replace", i))
                 ev.append(("update", i))
         if self.budget["snap"] > 0:
@@ -204,6 +207,27 @@ class Run:
                     # to the exchange, it stays like that by design: excluded from the trade-status rules below
                     if not any(any(x is o2 for o2 in o.trade.orders) for fn_, a_, kw_ in self.w.executor.queue for x in a_[0]):
                         self.stranded_by_own_exception.add(id(o.trade))
+                        if not hasattr(self.tr, "own_exception_trades"):
+                            self.tr.own_exception_trades = set()
+                        self.tr.own_exception_trades.add(self.tr.tkey(o.trade))
+            elif k == "tresp":
+                # the strategy's own `with trade:` block is still open when the execution pool (another thread) processes the response
+                # to the request made inside it: two blocks on the same trade overlap
+                o = self.local_of(e[1])
+                self.budget["req"] -= 1
+                try:
+                    with o.trade:
+                        m.cancel_order(o, size_reduction=None if len(self.log) % 2 else round(max(0.01, (o.size_remaining or 1.0) * 0.5), 2))
+                        if self.w.executor.queue:
+                            self.w.executor.run(len(self.w.executor.queue) - 1)
+                except FlumineException as ex2:
+                    # (the block raised on its own: the trade is left PENDING by design, see `tctx`)
+                    self.log[-1].append("exc:" + type(ex2).__name__)
+                    if not any(any(x is o2 for o2 in o.trade.orders) for fn_, a_, kw_ in self.w.executor.queue for x in a_[0]):
+                        self.stranded_by_own_exception.add(id(o.trade))
+                        if not hasattr(self.tr, "own_exception_trades"):
+                            self.tr.own_exception_trades = set()
+                        self.tr.own_exception_trades.add(self.tr.tkey(o.trade))
             elif k == "pcancel":
                 o = self.local_of(e[1])
                 self.budget["req"] -= 1
@@ -451,8 +475,63 @@ def exchange_truth(run):
     return st, by_sel
 
 
+def run_subscription(case, out):
+    """The order stream only reports what its subscription asks for: the strategy reference it subscribes with is the one the
+    instance's placements carry (config.customer_strategy_ref as set by the application at start-up, after the import)."""
+    from flumine import config as fconfig
+    from flumine.streams.orderstream import OrderStream
+
+    ref = "inst-%d" % case["idx"]
+    saved = fconfig.customer_strategy_ref
+    fconfig.customer_strategy_ref = ref
+    try:
+        st = livecases.make_strategy("A")
+        tr, w = livecases.new_world([st])
+        try:
+            mid = w.add_market_file(livecases.static_market())
+            w.next_book(mid)
+            m = w.market(mid)
+            for k_ in range(2):
+                m.place_order(livecases.make_order(st, mid, sel=701 + k_, side="BACK", price=3.0, size=2.0))
+            w.executor.run_all()
+            subs = []
+
+            class _Stream:
+                def subscribe_to_orders(s_, order_filter=None, conflate_ms=None, **kw):
+                    subs.append(order_filter)
+                    return 77
+
+                def start(s_):
+                    return None
+
+            class _Streaming:
+                def create_stream(s_, unique_id=None, listener=None, **kw):
+                    return _Stream()
+
+            client = w.clients[0]
+            client.betting_client.streaming = _Streaming()
+            os_ = OrderStream(w.fw, stream_id=77, streaming_timeout=0.05, conflate_ms=50, client=client)
+            getattr(OrderStream.run, "__wrapped__", OrderStream.run)(os_)  # (without tenacity's endless retry)
+            out.rule("subscription")
+            if len(subs) != 1:
+                out.v("order-stream-subscription-not-made-once", {}, n=len(subs))
+            else:
+                asked = (subs[0] or {}).get("customerStrategyRefs")
+                sent = sorted({b["customerStrategyRef"] for b in w.exchange.bets.values()})
+                if asked is not None and any(x not in asked for x in sent):
+                    out.v("order-stream-subscription-excludes-own-bets", {}, subscribed=asked, placed_with=sent, config=ref)
+            out.d("subscription")
+        finally:
+            livecases.finish(w)
+    finally:
+        fconfig.customer_strategy_ref = saved
+
+
 def run(case):
     out = O.Out(PROPERTY)
+    if case["mode"] == "subscription":
+        run_subscription(case, out)
+        return out.result()
     if case["mode"] == "dfs":
         explore(case["cfg"], case["prefix"], case["depth"], out, [4000 if case.get("tier") == "thorough" else 1500])
     elif case["mode"] == "events":
